@@ -513,6 +513,12 @@ impl ISocket for DealerSocket {
     if !self.core.is_running() {
       return Err(ZmqError::InvalidState("Socket is closing".into()));
     }
+    // Finish a message that recv() already started handing out frame by frame.
+    if let Some(frames) = self.frame_recv_buffer.lock().take() {
+      if !frames.is_empty() {
+        return Ok(FrameBatch::from(Vec::from(frames)));
+      }
+    }
     let rcvtimeo_opt: Option<Duration> = self.core.core_state.read().options.rcvtimeo;
     let (_, batch) = self.ingress_engine.recv_logical_message(rcvtimeo_opt).await?;
     self.process_incoming_zmtp_message_for_dealer(0, batch)
